@@ -12,6 +12,11 @@ def shapes():
         Variant("v1", [Stmt("a", ex=["s"]), Stmt("b", ex=["a"])]),
         Variant("v2", [Stmt("a", ex=["s"]), Stmt("b2", ex=["a"]), Stmt("c", ex=["b2"])]),
     ]))
+    # an output whose name contains a TAB (the build log's field separator) leaves the manifest; `data` itself is a source
+    S.append(("stale_output_with_a_tab_in_its_name", [
+        Variant("v0", [Stmt("data\tv2", ex=["s"]), Stmt("use", ex=["data"]), Stmt("top", ex=["use", "data\tv2"])]),
+        Variant("v1", [Stmt("use", ex=["data"]), Stmt("top", ex=["use"])]),
+    ]))
     S.append(("depfile_rsp_subdir", [
         Variant("v0", [Stmt("out/x.o", ex=["s"], hidden=["h"], depfile=True),
                        Stmt("out/lib", ex=["out/x.o"], rsp=("out/lib.rsp", "out/x.o")),
